@@ -86,3 +86,20 @@ package arvados
 //@   ensures startPtr.off >= fn.fileinfo.size ==> ptr.segmentIdx == len(fn.segments) && ptr.segmentOff == 0
 //@   ensures startPtr.off >= 0 && startPtr.off < fn.fileinfo.size ==> 0 <= ptr.segmentIdx && ptr.segmentIdx < len(fn.segments) && 0 <= ptr.segmentOff && ptr.segmentOff < segment.Len(fn.segments[ptr.segmentIdx]) && segsum(row(fn.segments), rowoff(fn.segments), ptr.segmentIdx) + ptr.segmentOff == ptr.off
 //@   loop 1: invariant fn == old(fn) && ptr.off == startPtr.off && ptr.repacked == startPtr.repacked && 0 <= ptr.segmentIdx && ptr.segmentIdx <= len(fn.segments) && ptr.segmentOff == 0 && off == segsum(row(fn.segments), rowoff(fn.segments), ptr.segmentIdx) && off <= ptr.off && ptr.off < fn.fileinfo.size
+
+//@ iface segment.ReadAt
+//@   modifies mem:byte
+//@   ensures 0 <= result0 && result0 <= len(p) && (0 <= off && off <= segment.Len(self) ==> result0 + off <= segment.Len(self))
+
+// Read: never indexes out of range; a negative offset is an error; at or beyond
+// the end of the file it returns (0, io.EOF); after reading n > 0 bytes the
+// pointer has advanced by exactly n and is again consistent with the packing
+// (strictly inside a segment, or precisely at EOF).
+//@ func filenode.Read property C08
+//@   requires fnValid(fn)
+//@   requires startPtr.repacked == fn.repacked && startPtr.off >= 0 && startPtr.off < fn.fileinfo.size ==> ptrOK(fn, startPtr)
+//@   ensures startPtr.off < 0 ==> err == ErrNegativeOffset && n == 0
+//@   ensures startPtr.off >= 0 && startPtr.off >= fn.fileinfo.size ==> err == io.EOF && n == 0
+//@   ensures startPtr.off >= 0 ==> 0 <= n && n <= len(p)
+//@   ensures n > 0 ==> ptr.off == startPtr.off + int64(n) && ptr.repacked == fn.repacked
+//@   ensures n > 0 ==> (ptr.segmentIdx < len(fn.segments) && 0 <= ptr.segmentIdx && 0 <= ptr.segmentOff && ptr.segmentOff < segment.Len(fn.segments[ptr.segmentIdx]) && segsum(row(fn.segments), rowoff(fn.segments), ptr.segmentIdx) + ptr.segmentOff == ptr.off) || (ptr.segmentIdx == len(fn.segments) && ptr.segmentOff == 0 && ptr.off == fn.fileinfo.size)
